@@ -106,10 +106,11 @@ class MissingEncoder(Encoder[Any]):
 
     @property
     def is_fit(self) -> bool:
-        return True
+        return self._encoder.is_fit
 
     def fit(self, values: Sequence[Any]) -> 'Encoder':
-        return self
+        values = [ v for v in values if v not in self._missing_vals ]
+        return MissingEncoder(self._encoder.fit(values), self._missing_vals, self._missing_rep)
 
     def encode(self, value: Any) -> Any:
         return self._missing_rep if value in self._missing_vals else self._encoder.encode(value)
